@@ -51,8 +51,8 @@ Proof.
     specialize (IH t Hlt' Hf). destruct (f y); cbn [length]; lia.
 Qed.
 
-Definition is_session (x : tst) : bool := match x with TSession _ => true | _ => false end.
-Definition is_writing (x : tst) : bool := match x with TWriting _ _ => true | _ => false end.
+Definition is_session (x : tst) : bool := match x with TSession _ _ => true | _ => false end.
+Definition is_writing (x : tst) : bool := match x with TWriting _ _ _ => true | _ => false end.
 
 Lemma count_sessions_set : forall l t x, t < length l ->
   count_sessions (set_nth l t x) + b2n (is_session (nth t l TIdle)) = count_sessions l + b2n (is_session x).
@@ -62,17 +62,17 @@ Lemma count_writing_set : forall l t x, t < length l ->
   count_writing (set_nth l t x) + b2n (is_writing (nth t l TIdle)) = count_writing l + b2n (is_writing x).
 Proof. intros l t x Hlt. unfold count_writing. apply (filter_set_nth is_writing l t x Hlt). Qed.
 
-Lemma session_count_pos : forall l t snap, nth t l TIdle = TSession snap -> 1 <= count_sessions l.
+Lemma session_count_pos : forall l t snap v, nth t l TIdle = TSession snap v -> 1 <= count_sessions l.
 Proof.
-  intros l t snap H. unfold count_sessions.
+  intros l t snap v H. unfold count_sessions.
   apply (filter_nth_pos is_session l t).
   - apply nth_nonidle_lt. rewrite H. discriminate.
   - rewrite H. reflexivity.
 Qed.
 
-Lemma writing_count_pos : forall l t b r, nth t l TIdle = TWriting b r -> 1 <= count_writing l.
+Lemma writing_count_pos : forall l t b r v, nth t l TIdle = TWriting b r v -> 1 <= count_writing l.
 Proof.
-  intros l t b r H. unfold count_writing.
+  intros l t b r v H. unfold count_writing.
   apply (filter_nth_pos is_writing l t).
   - apply nth_nonidle_lt. rewrite H. discriminate.
   - rewrite H. reflexivity.
@@ -87,6 +87,7 @@ Proof. induction n as [|n IH]; [reflexivity|]. unfold count_writing in *. cbn. e
 Lemma nth_repeat_idle : forall n t, nth t (repeat TIdle n) TIdle = TIdle.
 Proof. induction n as [|n IH]; intros [|t]; cbn; auto. Qed.
 
+
 (* ------------------------------------------------------------------ *)
 (* the invariant                                                        *)
 
@@ -94,22 +95,27 @@ Definition linv (s : lstate) : Prop :=
   readers s = count_sessions (threads s) /\
   (writer s = true -> readers s = 0 /\ count_writing (threads s) = 1) /\
   (writer s = false -> count_writing (threads s) = 0) /\
-  (forall t snap, nth t (threads s) TIdle = TSession snap -> snap = lcur s).
+  (* a live session sits on the committed state and on the current commit count *)
+  (forall t snap v, nth t (threads s) TIdle = TSession snap v -> snap = lcur s /\ v = lver s) /\
+  (* a change set was never taken on a count of the future *)
+  (forall t b r v, nth t (threads s) TIdle = TFinished b r v \/ nth t (threads s) TIdle = TWriting b r v ->
+     (v <= lver s)%N).
 
 Theorem linv_init : forall c n, linv (linit c n).
 Proof.
-  intros c n. unfold linv, linit. cbn [readers writer threads lcur].
+  intros c n. unfold linv, linit. cbn [readers writer threads lcur lver].
   rewrite count_sessions_repeat, count_writing_repeat.
-  split; [reflexivity|]. split; [discriminate|]. split; [reflexivity|].
-  intros t snap H. rewrite nth_repeat_idle in H. discriminate.
+  split; [reflexivity|]. split; [discriminate|]. split; [reflexivity|]. split.
+  - intros t snap v H. rewrite nth_repeat_idle in H. discriminate.
+  - intros t b r v H. rewrite nth_repeat_idle in H. destruct H; discriminate.
 Qed.
 
 (* in a state satisfying the invariant, a thread in the writer section means the write guard is held *)
-Lemma linv_writing : forall s t b r, linv s -> nth t (threads s) TIdle = TWriting b r ->
+Lemma linv_writing : forall s t b r v, linv s -> nth t (threads s) TIdle = TWriting b r v ->
   writer s = true /\ readers s = 0 /\ count_writing (threads s) = 1 /\ count_sessions (threads s) = 0.
 Proof.
-  intros s t b r (Hr & Hwt & Hwf & Hs) Ht.
-  pose proof (writing_count_pos _ _ _ _ Ht) as Hpos.
+  intros s t b r v (Hr & Hwt & Hwf & Hs & Hv) Ht.
+  pose proof (writing_count_pos _ _ _ _ _ Ht) as Hpos.
   destruct (writer s) eqn:Ew.
   - destruct (Hwt eq_refl) as [H0 H1]. repeat split; try assumption. lia.
   - specialize (Hwf eq_refl). lia.
@@ -120,85 +126,108 @@ Proof.
   intros s l s' Hinv Hstep.
   destruct Hstep as
     [ s t Hlt Ht Hw
-    | s t snap k Ht
-    | s t snap Ht
-    | s t snap batch Ht
-    | s t b r Ht Hrd Hw
-    | s t b r Ht Hbusy
-    | s t b r Ht Heq
-    | s t b r Ht Heq ]; try exact Hinv.
+    | s t snap v k Ht
+    | s t snap v Ht
+    | s t snap v batch Ht
+    | s t b r v Ht Hrd Hw
+    | s t b r v Ht Hbusy
+    | s t b r v Ht Heq
+    | s t b r v Ht Heq ]; try exact Hinv.
   - (* begin *)
-    destruct Hinv as (Hr & Hwt & Hwf & Hs).
-    pose proof (count_sessions_set (threads s) t (TSession (lcur s)) Hlt) as Hcs.
-    pose proof (count_writing_set (threads s) t (TSession (lcur s)) Hlt) as Hcw.
+    destruct Hinv as (Hr & Hwt & Hwf & Hs & Hv).
+    pose proof (count_sessions_set (threads s) t (TSession (lcur s) (lver s)) Hlt) as Hcs.
+    pose proof (count_writing_set (threads s) t (TSession (lcur s) (lver s)) Hlt) as Hcw.
     rewrite Ht in Hcs, Hcw. cbn [is_session is_writing b2n] in Hcs, Hcw.
-    unfold linv, with_thread. cbn [readers writer threads lcur].
-    split; [lia|]. split; [discriminate|]. split; [intros _; specialize (Hwf Hw); lia|].
-    intros t' snap' H'. destruct (Nat.eq_dec t' t) as [->|Hne].
-    + rewrite nth_set_nth_eq in H' by exact Hlt. congruence.
-    + rewrite nth_set_nth_neq in H' by exact Hne. eapply Hs; eassumption.
+    unfold linv, with_thread. cbn [readers writer threads lcur lver].
+    split; [lia|]. split; [discriminate|]. split; [intros _; specialize (Hwf Hw); lia|]. split.
+    + intros t' snap' v' H'. destruct (Nat.eq_dec t' t) as [->|Hne].
+      * rewrite nth_set_nth_eq in H' by exact Hlt. injection H' as <- <-. split; reflexivity.
+      * rewrite nth_set_nth_neq in H' by exact Hne. eapply Hs; eassumption.
+    + intros t' b' r' v' H'. destruct (Nat.eq_dec t' t) as [->|Hne].
+      * rewrite nth_set_nth_eq in H' by exact Hlt. destruct H' as [H'|H']; discriminate.
+      * rewrite nth_set_nth_neq in H' by exact Hne. eapply Hv; eassumption.
   - (* end *)
     assert (Hlt : t < length (threads s)) by (apply nth_nonidle_lt; rewrite Ht; discriminate).
-    pose proof (session_count_pos _ _ _ Ht) as Hpos.
-    destruct Hinv as (Hr & Hwt & Hwf & Hs).
+    pose proof (session_count_pos _ _ _ _ Ht) as Hpos.
+    destruct Hinv as (Hr & Hwt & Hwf & Hs & Hv).
     pose proof (count_sessions_set (threads s) t TIdle Hlt) as Hcs.
     pose proof (count_writing_set (threads s) t TIdle Hlt) as Hcw.
     rewrite Ht in Hcs, Hcw. cbn [is_session is_writing b2n] in Hcs, Hcw.
-    unfold linv, with_thread. cbn [readers writer threads lcur].
+    unfold linv, with_thread. cbn [readers writer threads lcur lver].
     split; [lia|]. split; [intros Hw; destruct (Hwt Hw); lia|].
-    split; [intros Hw; specialize (Hwf Hw); lia|].
-    intros t' snap' H'. destruct (Nat.eq_dec t' t) as [->|Hne].
-    + rewrite nth_set_nth_eq in H' by exact Hlt. discriminate.
-    + rewrite nth_set_nth_neq in H' by exact Hne. eapply Hs; eassumption.
+    split; [intros Hw; specialize (Hwf Hw); lia|]. split.
+    + intros t' snap' v' H'. destruct (Nat.eq_dec t' t) as [->|Hne].
+      * rewrite nth_set_nth_eq in H' by exact Hlt. discriminate.
+      * rewrite nth_set_nth_neq in H' by exact Hne. eapply Hs; eassumption.
+    + intros t' b' r' v' H'. destruct (Nat.eq_dec t' t) as [->|Hne].
+      * rewrite nth_set_nth_eq in H' by exact Hlt. destruct H' as [H'|H']; discriminate.
+      * rewrite nth_set_nth_neq in H' by exact Hne. eapply Hv; eassumption.
   - (* finish *)
     assert (Hlt : t < length (threads s)) by (apply nth_nonidle_lt; rewrite Ht; discriminate).
-    pose proof (session_count_pos _ _ _ Ht) as Hpos.
-    destruct Hinv as (Hr & Hwt & Hwf & Hs).
-    pose proof (count_sessions_set (threads s) t (TFinished snap (apply snap batch)) Hlt) as Hcs.
-    pose proof (count_writing_set (threads s) t (TFinished snap (apply snap batch)) Hlt) as Hcw.
+    pose proof (session_count_pos _ _ _ _ Ht) as Hpos.
+    destruct Hinv as (Hr & Hwt & Hwf & Hs & Hv).
+    pose proof (count_sessions_set (threads s) t (TFinished snap (apply snap batch) v) Hlt) as Hcs.
+    pose proof (count_writing_set (threads s) t (TFinished snap (apply snap batch) v) Hlt) as Hcw.
     rewrite Ht in Hcs, Hcw. cbn [is_session is_writing b2n] in Hcs, Hcw.
-    unfold linv, with_thread. cbn [readers writer threads lcur].
+    unfold linv, with_thread. cbn [readers writer threads lcur lver].
     split; [lia|]. split; [intros Hw; destruct (Hwt Hw); lia|].
-    split; [intros Hw; specialize (Hwf Hw); lia|].
-    intros t' snap' H'. destruct (Nat.eq_dec t' t) as [->|Hne].
-    + rewrite nth_set_nth_eq in H' by exact Hlt. discriminate.
-    + rewrite nth_set_nth_neq in H' by exact Hne. eapply Hs; eassumption.
+    split; [intros Hw; specialize (Hwf Hw); lia|]. split.
+    + intros t' snap' v' H'. destruct (Nat.eq_dec t' t) as [->|Hne].
+      * rewrite nth_set_nth_eq in H' by exact Hlt. discriminate.
+      * rewrite nth_set_nth_neq in H' by exact Hne. eapply Hs; eassumption.
+    + intros t' b' r' v' H'. destruct (Nat.eq_dec t' t) as [->|Hne].
+      * rewrite nth_set_nth_eq in H' by exact Hlt. destruct H' as [H'|H']; [|discriminate].
+        injection H' as _ _ <-. destruct (Hs _ _ _ Ht) as [_ ->]. lia.
+      * rewrite nth_set_nth_neq in H' by exact Hne. eapply Hv; eassumption.
   - (* acquire *)
     assert (Hlt : t < length (threads s)) by (apply nth_nonidle_lt; rewrite Ht; discriminate).
-    destruct Hinv as (Hr & Hwt & Hwf & Hs).
-    pose proof (count_sessions_set (threads s) t (TWriting b r) Hlt) as Hcs.
-    pose proof (count_writing_set (threads s) t (TWriting b r) Hlt) as Hcw.
+    destruct Hinv as (Hr & Hwt & Hwf & Hs & Hv).
+    pose proof (count_sessions_set (threads s) t (TWriting b r v) Hlt) as Hcs.
+    pose proof (count_writing_set (threads s) t (TWriting b r v) Hlt) as Hcw.
     rewrite Ht in Hcs, Hcw. cbn [is_session is_writing b2n] in Hcs, Hcw.
     specialize (Hwf Hw).
-    unfold linv, with_thread. cbn [readers writer threads lcur].
-    split; [lia|]. split; [intros _; split; lia|]. split; [discriminate|].
-    intros t' snap' H'. destruct (Nat.eq_dec t' t) as [->|Hne].
-    + rewrite nth_set_nth_eq in H' by exact Hlt. discriminate.
-    + rewrite nth_set_nth_neq in H' by exact Hne. eapply Hs; eassumption.
+    unfold linv, with_thread. cbn [readers writer threads lcur lver].
+    split; [lia|]. split; [intros _; split; lia|]. split; [discriminate|]. split.
+    + intros t' snap' v' H'. destruct (Nat.eq_dec t' t) as [->|Hne].
+      * rewrite nth_set_nth_eq in H' by exact Hlt. discriminate.
+      * rewrite nth_set_nth_neq in H' by exact Hne. eapply Hs; eassumption.
+    + intros t' b' r' v' H'. destruct (Nat.eq_dec t' t) as [->|Hne].
+      * rewrite nth_set_nth_eq in H' by exact Hlt. destruct H' as [H'|H']; [discriminate|].
+        injection H' as _ _ <-. apply (Hv t b r v). left. exact Ht.
+      * rewrite nth_set_nth_neq in H' by exact Hne. eapply Hv; eassumption.
   - (* commit ok *)
     assert (Hlt : t < length (threads s)) by (apply nth_nonidle_lt; rewrite Ht; discriminate).
-    destruct (linv_writing _ _ _ _ Hinv Ht) as (Hw & Hr0 & Hw1 & Hs0).
+    destruct (linv_writing _ _ _ _ _ Hinv Ht) as (Hw & Hr0 & Hw1 & Hs0).
+    destruct Hinv as (_ & _ & _ & _ & Hv).
     pose proof (count_sessions_set (threads s) t TIdle Hlt) as Hcs.
     pose proof (count_writing_set (threads s) t TIdle Hlt) as Hcw.
     rewrite Ht in Hcs, Hcw. cbn [is_session is_writing b2n] in Hcs, Hcw.
-    unfold linv, with_thread. cbn [readers writer threads lcur].
-    split; [lia|]. split; [discriminate|]. split; [intros _; lia|].
-    intros t' snap' H'. exfalso. destruct (Nat.eq_dec t' t) as [->|Hne].
-    + rewrite nth_set_nth_eq in H' by exact Hlt. discriminate.
-    + rewrite nth_set_nth_neq in H' by exact Hne.
-      pose proof (session_count_pos _ _ _ H'). lia.
+    unfold linv, bump, with_thread. cbn [readers writer threads lcur lver].
+    split; [lia|]. split; [discriminate|]. split; [intros _; lia|]. split.
+    + intros t' snap' v' H'. exfalso. destruct (Nat.eq_dec t' t) as [->|Hne].
+      * rewrite nth_set_nth_eq in H' by exact Hlt. discriminate.
+      * rewrite nth_set_nth_neq in H' by exact Hne.
+        pose proof (session_count_pos _ _ _ _ H'). lia.
+    + intros t' b' r' v' H'. destruct (Nat.eq_dec t' t) as [->|Hne].
+      * rewrite nth_set_nth_eq in H' by exact Hlt. destruct H' as [H'|H']; discriminate.
+      * rewrite nth_set_nth_neq in H' by exact Hne.
+        assert (v' <= lver s)%N by (eapply Hv; eassumption). lia.
   - (* commit stale *)
     assert (Hlt : t < length (threads s)) by (apply nth_nonidle_lt; rewrite Ht; discriminate).
-    destruct (linv_writing _ _ _ _ Hinv Ht) as (Hw & Hr0 & Hw1 & Hs0).
+    destruct (linv_writing _ _ _ _ _ Hinv Ht) as (Hw & Hr0 & Hw1 & Hs0).
+    destruct Hinv as (_ & _ & _ & _ & Hv).
     pose proof (count_sessions_set (threads s) t TIdle Hlt) as Hcs.
     pose proof (count_writing_set (threads s) t TIdle Hlt) as Hcw.
     rewrite Ht in Hcs, Hcw. cbn [is_session is_writing b2n] in Hcs, Hcw.
-    unfold linv, with_thread. cbn [readers writer threads lcur].
-    split; [lia|]. split; [discriminate|]. split; [intros _; lia|].
-    intros t' snap' H'. exfalso. destruct (Nat.eq_dec t' t) as [->|Hne].
-    + rewrite nth_set_nth_eq in H' by exact Hlt. discriminate.
-    + rewrite nth_set_nth_neq in H' by exact Hne.
-      pose proof (session_count_pos _ _ _ H'). lia.
+    unfold linv, with_thread. cbn [readers writer threads lcur lver].
+    split; [lia|]. split; [discriminate|]. split; [intros _; lia|]. split.
+    + intros t' snap' v' H'. exfalso. destruct (Nat.eq_dec t' t) as [->|Hne].
+      * rewrite nth_set_nth_eq in H' by exact Hlt. discriminate.
+      * rewrite nth_set_nth_neq in H' by exact Hne.
+        pose proof (session_count_pos _ _ _ _ H'). lia.
+    + intros t' b' r' v' H'. destruct (Nat.eq_dec t' t) as [->|Hne].
+      * rewrite nth_set_nth_eq in H' by exact Hlt. destruct H' as [H'|H']; discriminate.
+      * rewrite nth_set_nth_neq in H' by exact Hne. eapply Hv; eassumption.
 Qed.
 
 Lemma linv_lrun : forall s ls s', lrun s ls s' -> linv s -> linv s'.
@@ -214,14 +243,14 @@ Proof. intros c n ls s Hrun. eapply linv_lrun; [exact Hrun|apply linv_init]. Qed
 (* ------------------------------------------------------------------ *)
 (* excl                                                                  *)
 
-Theorem excl : forall c n ls s t b r,
-  lrun (linit c n) ls s -> nth t (threads s) TIdle = TWriting b r ->
-  forall t', (exists snap, nth t' (threads s) TIdle = TSession snap) -> False.
+Theorem excl : forall c n ls s t b r v,
+  lrun (linit c n) ls s -> nth t (threads s) TIdle = TWriting b r v ->
+  forall t', (exists snap v', nth t' (threads s) TIdle = TSession snap v') -> False.
 Proof.
-  intros c n ls s t b r Hrun Ht t' [snap Ht'].
+  intros c n ls s t b r v Hrun Ht t' [snap [v' Ht']].
   pose proof (linv_run _ _ _ _ Hrun) as Hinv.
-  destruct (linv_writing _ _ _ _ Hinv Ht) as (_ & _ & _ & Hs0).
-  pose proof (session_count_pos _ _ _ Ht'). lia.
+  destruct (linv_writing _ _ _ _ _ Hinv Ht) as (_ & _ & _ & Hs0).
+  pose proof (session_count_pos _ _ _ _ Ht'). lia.
 Qed.
 
 (* ------------------------------------------------------------------ *)
@@ -234,54 +263,167 @@ Proof.
   - cbn [app]. eapply run_cons; [exact Hstep|]. apply IH. exact Hrun'.
 Qed.
 
-(* while thread t stays inside one session the committed state cannot move: this is the fact behind
-   [snapshot], stated on its own *)
-Lemma session_pins_lcur : forall s ls s' t snap,
-  linv s -> nth t (threads s) TIdle = TSession snap ->
-  lrun s ls s' -> nth t (threads s') TIdle = TSession snap ->
-  lcur s = snap /\ lcur s' = snap.
+(* while thread t stays inside one session neither the committed state nor the commit count can
+   move: this is the fact behind [snapshot], stated on its own *)
+Lemma session_pins_lcur : forall s ls s' t snap v,
+  linv s -> nth t (threads s) TIdle = TSession snap v ->
+  lrun s ls s' -> nth t (threads s') TIdle = TSession snap v ->
+  (lcur s = snap /\ lcur s' = snap) /\ (lver s = v /\ lver s' = v).
 Proof.
-  intros s ls s' t snap Hinv Ht Hrun Ht'.
+  intros s ls s' t snap v Hinv Ht Hrun Ht'.
   pose proof (linv_lrun _ _ _ Hrun Hinv) as Hinv'.
-  destruct Hinv as (_ & _ & _ & Hs). destruct Hinv' as (_ & _ & _ & Hs').
-  split; symmetry; [eapply Hs|eapply Hs']; eassumption.
+  destruct Hinv as (_ & _ & _ & Hs & _). destruct Hinv' as (_ & _ & _ & Hs' & _).
+  destruct (Hs _ _ _ Ht) as [H1 H2]. destruct (Hs' _ _ _ Ht') as [H3 H4].
+  repeat split; symmetry; assumption.
 Qed.
 
-Theorem snapshot : forall c n ls s t snap k v ls' s',
-  lrun (linit c n) ls s -> nth t (threads s) TIdle = TSession snap ->
-  lrun s ls' s' -> nth t (threads s') TIdle = TSession snap ->
+Theorem snapshot : forall c n ls s t snap ver k v ls' s',
+  lrun (linit c n) ls s -> nth t (threads s) TIdle = TSession snap ver ->
+  lrun s ls' s' -> nth t (threads s') TIdle = TSession snap ver ->
   (forall l, In l ls' -> l <> LEnd t /\ l <> LFinish t) ->
   forall s'', lstep s' (LRead t k v) s'' -> v = get snap k.
 Proof.
-  intros c n ls s t snap k v ls' s' Hrun Ht Hrun' Ht' _ s'' Hstep.
+  intros c n ls s t snap ver k v ls' s' Hrun Ht Hrun' Ht' _ s'' Hstep.
   pose proof (linv_run _ _ _ _ Hrun) as Hinv.
-  destruct (session_pins_lcur _ _ _ _ _ Hinv Ht Hrun' Ht') as [_ Hcur].
+  destruct (session_pins_lcur _ _ _ _ _ _ Hinv Ht Hrun' Ht') as [[_ Hcur] _].
   inversion Hstep; subst. reflexivity.
 Qed.
 
 (* ------------------------------------------------------------------ *)
 (* serial                                                                *)
 
-Theorem commit_ok_effect : forall s t s', lstep s (LCommitOk t) s' ->
-  exists b r, nth t (threads s) TIdle = TWriting b r /\ lcur s = b /\ lcur s' = r.
+Lemma fresh_true_iff : forall s b v, fresh s b v = true <-> lcur s = b /\ lver s = v.
 Proof.
-  intros s t s' Hstep. inversion Hstep as [| | | | | |s0 t0 b r Ht Heq|]; subst.
-  exists b, r. split; [exact Ht|]. split; [apply kv_eqb_true_iff; exact Heq|reflexivity].
+  intros s b v. unfold fresh. rewrite andb_true_iff, kv_eqb_true_iff, N.eqb_eq. reflexivity.
 Qed.
 
-Theorem commit_stale_effect : forall s t s', lstep s (LCommitStale t) s' ->
-  lcur s' = lcur s /\ exists b r, nth t (threads s) TIdle = TWriting b r /\ lcur s <> b.
+Lemma fresh_false_iff : forall s b v, fresh s b v = false <-> ~ (lcur s = b /\ lver s = v).
 Proof.
-  intros s t s' Hstep. inversion Hstep as [| | | | | | |s0 t0 b r Ht Heq]; subst.
-  split; [reflexivity|]. exists b, r. split; [exact Ht|].
-  intros Hb. apply kv_eqb_true_iff in Hb. congruence.
+  intros s b v. rewrite <- fresh_true_iff. destruct (fresh s b v); split; intros H; congruence.
+Qed.
+
+Theorem commit_ok_effect : forall s t s', lstep s (LCommitOk t) s' ->
+  exists b r v, nth t (threads s) TIdle = TWriting b r v /\ lcur s = b /\ lver s = v /\
+                lcur s' = r /\ lver s' = (lver s + 1)%N.
+Proof.
+  intros s t s' Hstep. inversion Hstep as [| | | | | |s0 t0 b r v Ht Heq|]; subst.
+  apply fresh_true_iff in Heq. destruct Heq as [Hb Hv].
+  exists b, r, v. split; [exact Ht|]. repeat split; try assumption; reflexivity.
+Qed.
+
+(* a refused commit changes nothing; it is refused because the committed state is not the base OR
+   because a commit succeeded since the session was taken (the state may well be the base again) *)
+Theorem commit_stale_effect : forall s t s', lstep s (LCommitStale t) s' ->
+  lcur s' = lcur s /\ lver s' = lver s /\
+  exists b r v, nth t (threads s) TIdle = TWriting b r v /\ ~ (lcur s = b /\ lver s = v).
+Proof.
+  intros s t s' Hstep. inversion Hstep as [| | | | | | |s0 t0 b r v Ht Heq]; subst.
+  split; [reflexivity|]. split; [reflexivity|]. exists b, r, v. split; [exact Ht|].
+  apply fresh_false_iff. exact Heq.
+Qed.
+
+(* which of the two it is is decided by the state: a commit succeeds exactly when its base is the
+   committed state and no commit has succeeded since its session began *)
+Theorem commit_decided : forall s t b r v, nth t (threads s) TIdle = TWriting b r v ->
+  ((exists s', lstep s (LCommitOk t) s') <-> (lcur s = b /\ lver s = v)) /\
+  ((exists s', lstep s (LCommitStale t) s') <-> ~ (lcur s = b /\ lver s = v)).
+Proof.
+  intros s t b r v Ht. split; split.
+  - intros [s' Hstep]. apply commit_ok_effect in Hstep.
+    destruct Hstep as (b' & r' & v' & Ht' & Hb & Hv & _). rewrite Ht in Ht'. injection Ht' as <- _ <-.
+    split; assumption.
+  - intros H. apply fresh_true_iff in H. eexists. eapply st_commit_ok; eassumption.
+  - intros [s' Hstep]. apply commit_stale_effect in Hstep.
+    destruct Hstep as (_ & _ & b' & r' & v' & Ht' & Hn). rewrite Ht in Ht'. injection Ht' as <- _ <-.
+    exact Hn.
+  - intros H. apply fresh_false_iff in H. eexists. eapply st_commit_stale; eassumption.
 Qed.
 
 Theorem only_commit_changes : forall s l s', lstep s l s' ->
-  (forall t, l <> LCommitOk t) -> lcur s' = lcur s.
+  (forall t, l <> LCommitOk t) -> lcur s' = lcur s /\ lver s' = lver s.
 Proof.
-  intros s l s' Hstep Hne. destruct Hstep; try reflexivity.
+  intros s l s' Hstep Hne. destruct Hstep; try (split; reflexivity).
   exfalso. eapply Hne. reflexivity.
+Qed.
+
+(* ------------------------------------------------------------------ *)
+(* the commit count only grows, and every successful commit moves it    *)
+
+Lemma lstep_lver_le : forall s l s', lstep s l s' -> (lver s <= lver s')%N.
+Proof.
+  intros s l s' Hstep. destruct Hstep; unfold bump, with_thread; cbn [lver]; lia.
+Qed.
+
+Lemma lrun_lver_le : forall s ls s', lrun s ls s' -> (lver s <= lver s')%N.
+Proof.
+  intros s ls s' Hrun. induction Hrun as [s|s l s1 ls s2 Hstep Hrun IH]; [lia|].
+  apply lstep_lver_le in Hstep. lia.
+Qed.
+
+Lemma lrun_lver_lt : forall s ls s', lrun s ls s' -> (exists t, In (LCommitOk t) ls) ->
+  (lver s < lver s')%N.
+Proof.
+  intros s ls s' Hrun. induction Hrun as [s|s l s1 ls s2 Hstep Hrun IH]; intros [t Hin].
+  - destruct Hin.
+  - destruct Hin as [->|Hin].
+    + apply commit_ok_effect in Hstep. destruct Hstep as (_ & _ & _ & _ & _ & _ & _ & Hv).
+      apply lrun_lver_le in Hrun. lia.
+    + apply lstep_lver_le in Hstep. assert (lver s1 < lver s2)%N by (apply IH; exists t; exact Hin). lia.
+Qed.
+
+(* ABA: a finished change set, then any run in which some commit succeeds; when its owner gets
+   the write guard the commit can only be refused - whatever the committed state is by then, in
+   particular when it is the change set's base again (written then deleted). *)
+Theorem aba_stale : forall c n ls0 s t b r v ls s',
+  lrun (linit c n) ls0 s -> nth t (threads s) TIdle = TFinished b r v ->
+  lrun s ls s' -> (exists t', In (LCommitOk t') ls) ->
+  nth t (threads s') TIdle = TWriting b r v ->
+  (forall s'', ~ lstep s' (LCommitOk t) s'') /\
+  (exists s'', lstep s' (LCommitStale t) s'' /\ lcur s'' = lcur s' /\ lver s'' = lver s').
+Proof.
+  intros c n ls0 s t b r v ls s' Hrun0 Ht Hrun Hok Ht'.
+  pose proof (linv_run _ _ _ _ Hrun0) as (_ & _ & _ & _ & Hv).
+  assert (Hle : (v <= lver s)%N) by (apply (Hv t b r v); left; exact Ht).
+  pose proof (lrun_lver_lt _ _ _ Hrun Hok) as Hlt.
+  assert (Hn : ~ (lcur s' = b /\ lver s' = v)) by (intros [_ Hv']; lia).
+  destruct (commit_decided _ _ _ _ _ Ht') as [Hok' Hst]. split.
+  - intros s'' Hstep. apply Hn. apply Hok'. exists s''. exact Hstep.
+  - apply Hst in Hn. destruct Hn as [s'' Hstep]. exists s''. split; [exact Hstep|].
+    apply commit_stale_effect in Hstep. destruct Hstep as (H1 & H2 & _). split; assumption.
+Qed.
+
+(* such a run, with the state coming back: thread 0 prepares a change set on the empty store; thread 1
+   commits a write, then its deletion; when thread 0 gets the write guard the committed state IS its
+   base again, two commits later: it can only be refused *)
+Example aba_run_example :
+  let k := [true] in
+  exists s', lrun (linit [] 2)
+     [LBegin 0; LFinish 0;
+      LBegin 1; LFinish 1; LAcquire 1; LCommitOk 1;
+      LBegin 1; LFinish 1; LAcquire 1; LCommitOk 1;
+      LAcquire 0] s' /\
+    lcur s' = [] /\ nth 0 (threads s') TIdle = TWriting [] [(k, 7%N)] 0%N /\ lver s' = 2%N /\
+    (forall s'', ~ lstep s' (LCommitOk 0) s'') /\
+    (exists s'', lstep s' (LCommitStale 0) s'' /\ lcur s'' = [] /\ lver s'' = 2%N).
+Proof.
+  intros k. eexists. split.
+  - eapply run_cons. { eapply st_begin; [cbn; lia|reflexivity|reflexivity]. } cbv.
+    eapply run_cons. { eapply (st_finish _ _ _ _ [([true], Some 7%N)]). reflexivity. } cbv.
+    eapply run_cons. { eapply st_begin; [cbn; lia|reflexivity|reflexivity]. } cbv.
+    eapply run_cons. { eapply (st_finish _ _ _ _ [([true], Some 5%N)]). reflexivity. } cbv.
+    eapply run_cons. { eapply st_acquire; reflexivity. } cbv.
+    eapply run_cons. { eapply st_commit_ok; reflexivity. } cbv.
+    eapply run_cons. { eapply st_begin; [cbn; lia|reflexivity|reflexivity]. } cbv.
+    eapply run_cons. { eapply (st_finish _ _ _ _ [([true], None)]). reflexivity. } cbv.
+    eapply run_cons. { eapply st_acquire; reflexivity. } cbv.
+    eapply run_cons. { eapply st_commit_ok; reflexivity. } cbv.
+    eapply run_cons. { eapply st_acquire; reflexivity. } cbv.
+    apply run_nil.
+  - split; [reflexivity|]. split; [reflexivity|]. split; [reflexivity|]. split.
+    + intros s'' H. apply commit_ok_effect in H.
+      destruct H as (b & r & v & Ht & _ & Hv & _). cbv in Ht, Hv.
+      injection Ht as _ _ <-. discriminate.
+    + eexists. split; [eapply st_commit_stale; reflexivity|]. split; reflexivity.
 Qed.
 
 (* ------------------------------------------------------------------ *)
@@ -297,7 +439,7 @@ Proof. intros s t s' Hstep. inversion Hstep; subst. reflexivity. Qed.
    the lock or - non-blocking flavour - is handed the change set back) *)
 Lemma thread_progress : forall s t, nth t (threads s) TIdle <> TIdle -> exists l s', lstep s l s'.
 Proof.
-  intros s t Hne. destruct (nth t (threads s) TIdle) as [|snap|b r|b r] eqn:Ht.
+  intros s t Hne. destruct (nth t (threads s) TIdle) as [|snap v|b r v|b r v] eqn:Ht.
   - congruence.
   - exists (LEnd t). eexists. eapply st_end. exact Ht.
   - destruct (Nat.eq_dec (readers s) 0) as [Hr|Hr].
@@ -305,7 +447,7 @@ Proof.
       * exists (LDeferred t), s. eapply st_deferred; [exact Ht|right; exact Hw].
       * exists (LAcquire t). eexists. eapply st_acquire; eassumption.
     + exists (LDeferred t), s. eapply st_deferred; [exact Ht|left; exact Hr].
-  - destruct (kv_eqb (lcur s) b) eqn:Heq.
+  - destruct (fresh s b v) eqn:Heq.
     + exists (LCommitOk t). eexists. eapply st_commit_ok; eassumption.
     + exists (LCommitStale t). eexists. eapply st_commit_stale; eassumption.
 Qed.
